@@ -11,6 +11,7 @@ import (
 	"path/filepath"
 	"sort"
 	"strings"
+	"sync"
 
 	"golang.org/x/tools/go/packages"
 	"golang.org/x/tools/go/ssa"
@@ -27,6 +28,7 @@ type Program struct {
 	CS      *ContractSet
 	fnIndex map[string]*ssa.Function // pkgpath + "." + RelString
 	loops   map[*ssa.Function][]*Loop
+	mu      sync.Mutex
 }
 
 const modPrefix = "github.com/agglayer/aggkit"
@@ -152,6 +154,8 @@ func (P *Program) indexPkg(path string) {
 }
 
 func (P *Program) FindFunc(pkgPath, rel string) *ssa.Function {
+	P.mu.Lock()
+	defer P.mu.Unlock()
 	P.indexPkg(pkgPath)
 	return P.fnIndex[pkgPath+"."+rel]
 }
@@ -191,6 +195,8 @@ type Loop struct {
 }
 
 func (P *Program) Loops(fn *ssa.Function) []*Loop {
+	P.mu.Lock()
+	defer P.mu.Unlock()
 	if l, ok := P.loops[fn]; ok {
 		return l
 	}
